@@ -349,7 +349,7 @@ def oracle(spec, res, neutral_res):
             probs = match_runs(out, main, notes, set(), 'm')
             if probs:
                 known = set(['m-note-tail', 'm-nested-table', 'm-nested-section'])
-                probs2 = match_runs(out, main, notes, known, 'm')
+                probs2 = match_runs(out, main, notes, known, 'm')   # classes of former findings: only used to NAME a failure
                 miss2 = [p for p in probs2 if p[0] == 'missing']
                 if miss2:
                     fails.append(('m-text-missing', 'run %r not found in order' % (miss2[0][1],)))
